@@ -236,3 +236,16 @@ Example C20_ex_old_witness_not_ok_old : history_ok false 11 2 100 w_init wit_pau
 Proof. vm_compute. reflexivity. Qed.
 Example C20_ex_old_witness_ok : history_ok true 11 2 100 w_init wit_pause_in_body = true.
 Proof. vm_compute. reflexivity. Qed.
+
+(* ---- the reference sort of the sort module is qsort(cmp_int64) with sort.c:cmp_int64 translated
+   from the C source (translator unit cmp_sortmod -> coq/Gen/Cmp_sortmod_gen.v, regenerated on every run). *)
+From OV Require Gen.Cmp_sortmod_gen Proofs.CmpSortmodProofs.
+
+Theorem C20_first_sort_from_source : forall l, isort l = CmpSortmodProofs.isort_src l.
+Proof. exact CmpSortmodProofs.isort_from_source. Qed.
+Print Assumptions C20_first_sort_from_source.
+
+Theorem C20_cmp_int64_three_way : forall a b, Cmp_sortmod_gen.cmp_int64_core a b = CmpPre.cmp3 a b.
+Proof. exact CmpSortmodProofs.cmp_int64_core_cmp3. Qed.
+Print Assumptions C20_cmp_int64_three_way.
+
